@@ -100,10 +100,18 @@ def run(tier, seed):
             # weight supersets whose spare (unusable) candidates follow the needed ones: layers stay empty after non-empty ones
             spare = max(u["ew"]) + 1
             for cls in ("kFlowDecomp", "kLeastAbsErrors", "kMinPathError"):
-                for sws in (list(u["pweights"]) + [spare, spare + 1], [spare] + list(u["pweights"]) + [spare + 2]):
+                for sws in (list(u["pweights"]) + [spare, spare + 1], [spare] + list(u["pweights"]) + [spare + 2],
+                            "fewer", "too_few"):
                     r = C.base(u, cls)
                     r["wt"] = "int"
-                    r["k"] = len(sws)
+                    if sws == "fewer":          # a superset longer than k: at most k of its weights may be used
+                        sws = list(u["pweights"]) + [1, 2]
+                        r["k"] = len(u["pweights"])
+                    elif sws == "too_few":      # ... and k below what the flow needs: whatever is reported must respect k
+                        sws = list(u["pweights"]) + [1, 1, 2]
+                        r["k"] = max(1, len(u["pweights"]) - 1)
+                    else:
+                        r["k"] = len(sws)
                     r["sws"] = sws
                     if cls == "kFlowDecomp":
                         r["opt"] = {"optimize_with_greedy": False}
